@@ -16,9 +16,11 @@ import oracle
 MODE = "full"
 
 
-def tree_failures(P, grammar, s, i):
-    """Check every tree offered by lparse and the tree of parse on the real code."""
-    cls, rules = G.build(P, [tuple(r) for r in grammar])
+def tree_failures(P, grammar, s, i, rules=None):
+    """Check every tree offered by lparse and the tree of parse on the real code (on the given, possibly
+    warm, rule objects; a fresh build otherwise)."""
+    if rules is None:
+        cls, rules = G.build(P, [tuple(r) for r in grammar])
     bad = []
     try:
         ms = list(rules[0].lparse(s, i))
@@ -64,8 +66,10 @@ def run(ctx):
     checked = 0
     gcases = ec.gen_cases(ctx.seed + 7777, ctx.budget(60, 600), 8)
     for gr, cases in gcases:
-        for s, i in cases[:20]:
-            bad = tree_failures(P, gr, s, i)
+        cls_w, rules_w = G.build(P, gr)   # one build per grammar: caches stay warm across sources/offsets
+        cases = cases[:20] + [(s[1:], max(0, i - 1)) for s, i in cases[:6] if len(s) > 1] + [("zz" + s, i + 2) for s, i in cases[:6]]
+        for s, i in cases:
+            bad = tree_failures(P, gr, s, i, rules=rules_w)
             checked += 1
             if bad and rep < 3:
                 found = True
